@@ -625,12 +625,9 @@ def roundtrips(a):
         return False
 
 
-def o_static(c):
-    a = W.undump(c['a'])
-    before = W.dump(a)
-    res = call_static(c, a=a)
-    if W.dump(a) != before:
-        return 'the annotation passed in was modified'
+def check_static_res(c, res):
+    """the annotation `res` returned for the arguments of case `c` against the table of the property"""
+    before = c['a']
     if other_fields(W.dump(res)) != other_fields(before):
         return f'fields other than terminal/internal mods changed: {W.dump(res)}'
     nt, ct, internal = fields_of(res)
@@ -641,6 +638,18 @@ def o_static(c):
         return f'N-terminal mods {nt} != table {ent}'
     if ct != ect:
         return f'C-terminal mods {ct} != table {ect}'
+    return None
+
+
+def o_static(c):
+    a = W.undump(c['a'])
+    before = W.dump(a)
+    res = call_static(c, a=a)
+    if W.dump(a) != before:
+        return 'the annotation passed in was modified'
+    r = check_static_res(c, res)
+    if r is not None:
+        return r
     if c['mode'] == 'skip':
         again = call_static(c, a=copy.deepcopy(res))
         if W.dump(again) != W.dump(res):
@@ -655,10 +664,11 @@ def o_static(c):
     return None
 
 
-def o_var(c):
+def check_var_res(c, res):
+    """the list of annotations `res` returned for the arguments of case `c` against the subset enumeration (skip) /
+    the weaker clauses (append, overwrite)"""
     a = W.undump(c['a'])
-    before = W.dump(a)
-    res = call_var(c)
+    before = c['a']
     of = other_fields(before)
     for r in res:
         if other_fields(W.dump(r)) != of:
@@ -699,6 +709,15 @@ def o_var(c):
             dup = [k for k, v in got.items() if v > 1][:2]
             if dup:
                 return f'form returned more than once: {dup}'
+    return None
+
+
+def o_var(c):
+    a = W.undump(c['a'])
+    res = call_var(c)
+    r = check_var_res(c, res)
+    if r is not None:
+        return r
     strs = call_var(c, 'str')
     if strs != [r.serialize() for r in res]:
         return "return_type='str' is not the serialization of return_type='annotation'"
@@ -707,6 +726,192 @@ def o_var(c):
         if s2 != strs:
             return 'string input and annotation input give different results'
     return None
+
+
+
+# --------------------------------------------------------------------------- call sequences (state leaking between calls)
+def snap(obj):
+    """type- and order-sensitive snapshot of a rule object"""
+    return json.dumps(jcase(obj))
+
+
+def gen_seq_case(rng):
+    """two peptides, ONE set of rule objects, a list of calls in which one parameter changes from call to call"""
+    static_ok = rng.random() < 0.6
+    gv = gen_static_value if static_ok else gen_var_value
+    while True:
+        peps = [W.dump(gen_annot(rng, 0.1)) for _ in range(2)]
+        base = {'internal': gen_rules(rng, gv, 1, 3), 'nterm': gen_term(rng, gv), 'cterm': gen_term(rng, gv)}
+        if rng.random() < 0.5 and base['nterm'] is None:
+            base['nterm'] = gv(rng)
+        worst = max(estimate_forms(jcase({'a': p_, **base, 'mode': m_, 'max_mods': 3})) for p_ in peps for m_ in MODES)
+        if worst <= 300:
+            break
+    cur = {'fn': rng.choice(['static', 'variable']) if static_ok else 'variable', 'mode': rng.choice(MODES),
+           'max_mods': rng.choice([0, 1, 2]), 'return_type': rng.choice(['annotation', 'str']), 'use_n': True, 'use_c': True,
+           'reversed': False, 'pep': 0, 'as_str': False, 'mutate': rng.random() < 0.7}
+    steps = [dict(cur)]
+    for _ in range(rng.randint(4, 9)):
+        what = rng.choice(['mode', 'max_mods', 'return_type', 'use_n', 'use_c', 'reversed', 'pep', 'as_str', 'fn', 'same'])
+        if what == 'mode':
+            cur['mode'] = rng.choice([m_ for m_ in MODES if m_ != cur['mode']])
+        elif what == 'max_mods':
+            cur['max_mods'] = rng.choice([m_ for m_ in (0, 1, 2, 3) if m_ != cur['max_mods']])
+        elif what == 'return_type':
+            cur['return_type'] = 'str' if cur['return_type'] == 'annotation' else 'annotation'
+        elif what == 'fn' and static_ok:
+            cur['fn'] = 'static' if cur['fn'] == 'variable' else 'variable'
+        elif what in ('use_n', 'use_c', 'reversed', 'as_str'):
+            cur[what] = not cur[what]
+        elif what == 'pep':
+            cur['pep'] = 1 - cur['pep']
+        cur['mutate'] = rng.random() < 0.7
+        steps.append(dict(cur))
+    return jcase({'peps': peps, **base, 'steps': steps})
+
+
+def step_case(c, st):
+    """the arguments of one call as an ordinary (JSON) case, for the reference"""
+    def rev(d):
+        return {k: d[k] for k in reversed(list(d))} if isinstance(d, dict) and st['reversed'] else d
+    out = {'a': c['peps'][st['pep']], 'internal': rev(c['internal']), 'nterm': rev(c['nterm']) if st['use_n'] else None,
+           'cterm': rev(c['cterm']) if st['use_c'] else None, 'mode': st['mode']}
+    if st['fn'] == 'variable':
+        out['max_mods'] = st['max_mods']
+    return out
+
+
+def vandalise(res):
+    """edit what a call returned (a cached object handed out would now be wrong for the next caller)"""
+    from peptacular.proforma.proforma_parser import ProFormaAnnotation
+    items = res if isinstance(res, list) else [res]
+    for x in items:
+        if isinstance(x, ProFormaAnnotation):
+            x._sequence = 'W' + x._sequence
+            x._nterm_mods = (x._nterm_mods or []) + [to_mod('vandal')]
+            if x._internal_mods:
+                for v in x._internal_mods.values():
+                    v.append(to_mod('vandal'))
+                x._internal_mods[99] = [to_mod('vandal')]
+            x._cterm_mods = None
+    if isinstance(res, list):
+        res.append('vandal')
+        res.reverse()
+
+
+def run_sequence(c, order):
+    """one pass over the calls of `c` (order = indices of the steps); all calls share the peptide and rule OBJECTS"""
+    import peptacular as pt
+    c = unjcase(c)
+    objs = {'internal': c['internal'], 'nterm': c['nterm'], 'cterm': c['cterm']}
+    revs = {k: ({kk: v[kk] for kk in reversed(list(v))} if isinstance(v, dict) else v) for k, v in objs.items()}  # same value objects
+    peps = [W.undump(d) for d in c['peps']]
+    pep_strs = [p_.serialize() if roundtrips(p_) else None for p_ in peps]
+    snaps = {k: snap(v) for k, v in objs.items()}
+    first = {}
+
+    def issue(i):
+        st = c['steps'][i]
+        src = revs if st['reversed'] else objs
+        internal = src['internal']
+        nterm = src['nterm'] if st['use_n'] else None
+        cterm = src['cterm'] if st['use_c'] else None
+        seq_arg = peps[st['pep']]
+        if st['as_str'] and pep_strs[st['pep']] is not None:
+            seq_arg = pep_strs[st['pep']]
+        sc = jcase(step_case(c, st))
+        if st['fn'] == 'static':
+            res = pt.apply_static_mods(seq_arg, internal, nterm_mods=nterm, cterm_mods=cterm, mode=st['mode'],
+                                       return_type=st['return_type'])
+            ann = res if st['return_type'] == 'annotation' else pt.apply_static_mods(
+                seq_arg, internal, nterm_mods=nterm, cterm_mods=cterm, mode=st['mode'], return_type='annotation')
+            msg = check_static_res(sc, ann)
+            if msg is None and st['return_type'] == 'str' and res != ann.serialize():
+                msg = f"return_type='str' gives {res!r}, the annotation serializes to {ann.serialize()!r}"
+            canon = res if st['return_type'] == 'str' else W.dump(res)
+        else:
+            res = pt.apply_variable_mods(seq_arg, internal, st['max_mods'], nterm_mods=nterm, cterm_mods=cterm,
+                                         mode=st['mode'], return_type=st['return_type'])
+            ann = res if st['return_type'] == 'annotation' else pt.apply_variable_mods(
+                seq_arg, internal, st['max_mods'], nterm_mods=nterm, cterm_mods=cterm, mode=st['mode'],
+                return_type='annotation')
+            msg = check_var_res(sc, ann)
+            if msg is None and st['return_type'] == 'str' and res != [x.serialize() for x in ann]:
+                msg = "return_type='str' is not the serialization of return_type='annotation'"
+            canon = list(res) if st['return_type'] == 'str' else [W.dump(x) for x in res]
+        if msg is not None:
+            return None, f'call #{i} {st}: {msg}'
+        if st['mutate']:
+            vandalise(res)
+            if ann is not res:
+                vandalise(ann)
+        for k, v in objs.items():
+            if snap(v) != snaps[k]:
+                return None, f'call #{i} {st}: the caller\'s {k} rule object changed: {snaps[k]} -> {snap(v)}'
+        for j, p_ in enumerate(peps):
+            if W.dump(p_) != c['peps'][j]:
+                return None, f'call #{i} {st}: the annotation passed in (peptide {j}) changed: {W.dump(p_)}'
+        return canon, None
+
+    for i in order:
+        canon, msg = issue(i)
+        if msg is not None:
+            return msg
+        first.setdefault(i, canon)
+    for i in order[:2]:                                   # the earliest calls again, after everything else
+        canon, msg = issue(i)
+        if msg is not None:
+            return 're-issued ' + msg
+        if canon != first[i]:
+            return f're-issued call #{i} {c["steps"][i]} answers differently: {str(canon)[:300]} vs first {str(first[i])[:300]}'
+    return None
+
+
+def o_sequence(c):
+    n = len(c['steps'])
+    r = run_sequence(c, list(range(n)))
+    if r is not None:
+        return 'forward: ' + r
+    r = run_sequence(c, list(range(n - 1, -1, -1)))
+    if r is not None:
+        return 'backward: ' + r
+    return None
+
+
+def fresh_eval(c):
+    """evaluate a call sequence in a NEW interpreter: leaked state from earlier trials must not decide the outcome"""
+    import os
+    import subprocess
+    import sys
+    env = dict(os.environ)
+    env['PYTHONPATH'] = os.pathsep.join(p_ for p_ in [os.path.join(core.REPO, 'src') if os.environ.get('VERIF_REPO') else '',
+                                                      core.VERIF, env.get('PYTHONPATH', '')] if p_)
+    code = 'import json,sys\nfrom harness.props import c13\nprint(json.dumps(c13.o_sequence(json.load(sys.stdin))))'
+    p_ = subprocess.run([sys.executable, '-W', 'ignore', '-c', code], input=json.dumps(c), capture_output=True, text=True,
+                        cwd='/tmp', env=env, timeout=120)
+    if p_.returncode != 0:
+        return None
+    return json.loads(p_.stdout.strip().split('\n')[-1])
+
+
+def fresh_fails(c):
+    return fresh_eval(c) is not None
+
+
+def shrink_seq(c, fails):
+    """drop calls, then rules, while the sequence still fails"""
+    c = copy.deepcopy(c)
+    c['steps'] = core.shrink_list(c['steps'], lambda st: len(st) >= 1 and fails({**c, 'steps': st}), 1)
+    for key in ('nterm', 'cterm'):
+        if c[key] is not None and fails({**c, key: None}):
+            c[key] = None
+    if isinstance(c['internal'], dict):
+        for k in list(c['internal']):
+            if len(c['internal']) > 1:
+                d = {kk: vv for kk, vv in c['internal'].items() if kk != k}
+                if fails({**c, 'internal': d}):
+                    c['internal'] = d
+    return c
 
 
 def shrink_case(c, fails):
@@ -851,8 +1056,8 @@ def run(chk):
     # ------------------------------------------------------------------ cases
     n_static = 1500 if quick else 15000
     n_var = 1500 if quick else 12000
-    static_cases = [c for c in corpus if 'max_mods' not in c] + [gen_static_case(rng) for _ in range(n_static)]
-    var_cases = [c for c in corpus if 'max_mods' in c]
+    static_cases = [c for c in corpus if 'max_mods' not in c and 'steps' not in c] + [gen_static_case(rng) for _ in range(n_static)]
+    var_cases = [c for c in corpus if 'max_mods' in c and 'steps' not in c]
     for _ in range(n_var):
         r = rng.random()
         var_cases.append(gen_var_case(rng, 'skip' if r < 0.5 else None))
@@ -1026,6 +1231,13 @@ def run(chk):
                  ('bad-var-mods',)] + [('compiled', s_, rx) for s_, rx in site_cases[:200] if rx]
     chk.oracle('error_paths_and_compiled_patterns', err_cases, o_errors, nontrivial_fn=lambda c: True)
 
+    # call sequences: one peptide pair and ONE set of rule objects through consecutive calls (state leaking between calls)
+    seq_cases = [c for c in corpus if 'steps' in c] + [gen_seq_case(rng) for _ in range(150 if quick else 2500)]
+    for c in seq_cases:
+        chk.count('sequence:calls', 2 * len(c['steps']) + 4)
+    chk.oracle('call_sequences_shared_rule_objects', seq_cases, o_sequence, nontrivial_fn=lambda c: True,
+               key_fn=lambda c: json.dumps(c, sort_keys=True))
+
     # the implementation against the Lean specification (mode skip), as multisets when the offers are distinct
     skip_cases = [c for c in vsel if c['mode'] == 'skip']
     spec_out = chk.driver(DRV, [var_line(c, 'spec') for c in skip_cases])
@@ -1044,6 +1256,17 @@ def run(chk):
                key_fn=lambda c: json.dumps(jcase(c), sort_keys=True))
 
     _shrink_failures(chk)
+    _strip_marks(chk)
+    # one failure of every failing oracle first (core writes replay files for the first three)
+    seen_or = {}
+    for f in chk.failures:
+        seen_or.setdefault(f['oracle'], []).append(f)
+    ordered = []
+    while any(seen_or.values()):
+        for k in list(seen_or):
+            if seen_or[k]:
+                ordered.append(seen_or[k].pop(0))
+    chk.failures[:] = ordered
     rr = stop_reach(reach)
     if rr is not None:
         total, missed = rr
@@ -1058,7 +1281,7 @@ def run(chk):
     return chk.finish(classify)
 
 
-_ORACLES = {'static_table_and_idempotence': o_static, 'variable_vs_subset_enumeration': o_var,
+_ORACLES = {'call_sequences_shared_rule_objects': o_sequence, 'static_table_and_idempotence': o_static, 'variable_vs_subset_enumeration': o_var,
             'regex_sites_vs_independent_reading': o_sites, 'regex_ranges_vs_independent_reading': o_ranges}
 
 
@@ -1069,12 +1292,29 @@ def _shrink_failures(chk):
         if fn is None or not isinstance(c, dict):
             continue
         try:
-            small = shrink_case(c, lambda x: fn(x) is not None)
+            if 'steps' in c:
+                # shrink in fresh interpreters (at most twice per run: about 2 s per trial); otherwise keep the case as found
+                if sum(1 for g in chk.failures if g.get('_seq_shrunk')) >= 2 or not fresh_fails(c):
+                    f['how_to_rerun'] = './check C13 --replay <this file>'
+                    continue
+                f['_seq_shrunk'] = True
+                small = shrink_seq(c, fresh_fails)
+                f['case'] = jcase(small)
+                f['detail'] = str(fresh_eval(small))[:2000]
+                f['how_to_rerun'] = './check C13 --replay <this file>'
+                continue
+            else:
+                small = shrink_case(c, lambda x: fn(x) is not None)
             f['case'] = jcase(small)
             f['detail'] = str(fn(small))[:2000]
             f['how_to_rerun'] = './check C13 --replay <this file>'
         except Exception:  # noqa
             pass
+
+
+def _strip_marks(chk):
+    for f in chk.failures:
+        f.pop('_seq_shrunk', None)
 
 
 def classify(f):
@@ -1089,7 +1329,7 @@ def replay(chk, obj):
         return 0
     r = fn(c)
     print('case:', json.dumps(jcase(c)))
-    if isinstance(c, list):
+    if isinstance(c, list) or 'steps' in c:
         pass
     elif 'max_mods' in c:
         print('apply_variable_mods ->', call_var(c, 'str'))
